@@ -471,7 +471,7 @@ func (e *Engine) execBuiltin(st *State, fr *Frame, site ssa.Instruction, b *ssa.
 				return []Value{IntLit(x.ArrLen)}
 			}
 		case Term:
-			switch mt := c.Args[0].Type().Underlying().(type) {
+			switch mt := under(c.Args[0].Type()).(type) {
 			case *types.Map:
 				_, card, _ := e.mapHeaps(mt)
 				h := e.heapGet(st, card.name, card.sort)
@@ -500,7 +500,7 @@ func (e *Engine) execBuiltin(st *State, fr *Frame, site ssa.Instruction, b *ssa.
 	case "copy":
 		return []Value{e.builtinCopy(st, c, args)}
 	case "delete":
-		mt := c.Args[0].Type().Underlying().(*types.Map)
+		mt := under(c.Args[0].Type()).(*types.Map)
 		e.mapDelete(st, mt, args[0].(Term), args[1])
 		return nil
 	case "close":
@@ -539,7 +539,7 @@ func (e *Engine) execBuiltin(st *State, fr *Frame, site ssa.Instruction, b *ssa.
 // builtinAppend models append(s, elems...) where the second argument is a slice (or string).
 func (e *Engine) builtinAppend(st *State, fr *Frame, site ssa.Instruction, c *ssa.CallCommon, args []Value) Value {
 	s := args[0].(VSlice)
-	et := c.Args[0].Type().Underlying().(*types.Slice).Elem()
+	et := under(c.Args[0].Type()).(*types.Slice).Elem()
 	var src VSlice
 	switch x := args[1].(type) {
 	case VSlice:
@@ -593,7 +593,7 @@ func (e *Engine) builtinAppend(st *State, fr *Frame, site ssa.Instruction, c *ss
 
 func (e *Engine) builtinCopy(st *State, c *ssa.CallCommon, args []Value) Value {
 	dst := args[0].(VSlice)
-	et := c.Args[0].Type().Underlying().(*types.Slice).Elem()
+	et := under(c.Args[0].Type()).(*types.Slice).Elem()
 	var src VSlice
 	switch x := args[1].(type) {
 	case VSlice:
